@@ -9,7 +9,7 @@ From Verif Require Import Lib.Base Lib.Utf8 Lib.GoStr Model.Cfg Gen.Tables Model
 Definition written (o : op) : bool :=
   match o with
   | OSet slot _ _ | OResolve slot _ | OSpAppend slot _ _ | OSpDelete slot _ | OSpSet slot _ _
-  | OSpSort slot | OSpSortAbs slot | OSpQuery slot _ | OSpTouch slot | OSpAdopt slot => slot
+  | OSpSort slot | OSpSortAbs slot | OSpQuery slot _ | OSpTouch slot | OSpAdopt slot | OSpIterate slot _ => slot
   | OResolveInto _ => true
   | OCloneInto from => negb from
   end.
@@ -53,6 +53,7 @@ Section Frame.
     - apply with_sp_frame.
     - destruct (get s slot) as [u|]; [|reflexivity]. destruct (ensure_sp c u) as [u' l]. cbn [fst]. apply get_put_other.
     - destruct (get s slot) as [u|]; [|reflexivity]. cbn [fst]. apply get_put_other.
+    - apply with_sp_frame.
   Qed.
 
   (* SetSearchParams: the other slot (whose list is the argument) is left as by a call of its SearchParams() getter *)
